@@ -57,9 +57,17 @@ UNIT_TRUSTED["packet_parse"] = [
     "NOT covered: the per-family NLRI decoders behind decode_nlri_list and the attribute / capability body decoders (leaf byte-level code)",
 ]
 
+UNIT_TRUSTED["table_rpki"] = [
+    "patricia_tree::PatriciaMap modelled as a finite map from keys to VRP lists (pm_view, uninterpreted); R11b shims vx_pm_get / vx_pm_is_empty assumed to be exact lookups / emptiness of that map",
+    "prelude p_table / p_table_rpki: packet::Nlri mirrored transparently (payload types opaque), Ipv4Addr/Ipv6Addr::octets as uninterpreted octet sequences of length 4 / 16, Attribute::{code,as_path_origin} uninterpreted, IpNet opaque with Clone = equal value, Source kept outside Verus (src_local_asn accessor shim)",
+    "RpkiTable::key_to_addr (clone_from_slice / expect / unreachable!) trusted: total for keys produced by covering_key (4 or 16 octets + length)",
+    "'covers' is defined on octets (covering_key_spec); the Kani harnesses c12_covering_key_v4 / _v6 prove the real covering_key equal to 'address with the low (width - len) bits cleared' for every address and length (complete)",
+    "NOT under contract: RpkiTable::{insert,remove,drop_source,state,iter} (nested get_mut on HashMap/PatriciaMap, foreign iterators, Arc::ptr_eq): the 'operations on a set keyed by (cache, prefix, max-length, AS)' clause of C12 is not covered; stored keys with host bits set (a cache sending non-canonical prefixes) are never matched — by construction of the lookup, and consistent with the spec",
+]
+
 # minimum number of functions that must produce obligations / of must-fail twins that must run
-FLOORS = {"daemon_fsm": 30, "daemon_gr": 4, "daemon_peer_tx": 7, "table_cmp": 20, "packet_validate": 1, "packet_parse": 1}
-TWIN_FLOORS = {"daemon_fsm": 8, "daemon_gr": 3, "daemon_peer_tx": 2, "table_cmp": 4, "packet_validate": 1, "packet_parse": 1}
+FLOORS = {"daemon_fsm": 30, "daemon_gr": 4, "daemon_peer_tx": 7, "table_cmp": 20, "packet_validate": 1, "packet_parse": 1, "table_rpki": 3}
+TWIN_FLOORS = {"daemon_fsm": 8, "daemon_gr": 3, "daemon_peer_tx": 2, "table_cmp": 4, "packet_validate": 1, "packet_parse": 1, "table_rpki": 1}
 
 PLAN = {
     "C01": {"verus": ["daemon_peer_tx"], "level": "proof"},
@@ -69,6 +77,7 @@ PLAN = {
     "C07": {"verus": ["daemon_fsm", "packet_parse"], "level": "proof"},
     "C08": {"verus": ["daemon_fsm"], "level": "proof"},
     "C10": {"verus": ["daemon_gr"], "level": "proof"},
+    "C12": {"verus": ["table_rpki"], "kani": ["c12_covering_key_v4", "c12_covering_key_v6"], "level": "proof"},
     "C16": {"verus": ["daemon_fsm"], "kani": ["c16_ipnet_contains_v4", "c16_ipnet_contains_v6"], "level": "proof"},
     "C02": {"verus": ["table_cmp"], "level": "proof"},
     "C03": {"verus": ["packet_parse"], "level": "proof",
